@@ -24,6 +24,26 @@ NOTES = {
  "C18-knots-factor-rounded": ("m/s -> knots factor 1.94384", "speeds whose product lands just above an x.x5 boundary (>= 27.6 m/s)", ""),
  "C19-single-packet-fast-path": ("single-packet messages bypass the send lock", "a single-frame send while a multi-frame send is suspended by back-pressure", ""),
  "C20-del-minus-zero": ("`del buf[:-keep]` with keep == 0", "marker-free noise whose reads do not end in 0xAA", ""),
+ "C01r2-bitlookup-cache-by-positions": ("module-level cache of bit-lookup text keyed by (raw, bit positions of the table)", "two bit-lookup tables with the same bit positions, same raw, decoded in one process", "caught (tables of different PGNs meet in one worker); a dedicated history pass (all definitions of every PGN forward/backward/again on one decoder) was added anyway"),
+ "C02r2-encode-func-cached-per-pgn": ("encode function cached per PGN on the encoder instance", "two definitions of one PGN encoded by the same encoder", ""),
+ "C03r2-short-fast-single-frame": ("fast-packet PGN with a payload <= 8 bytes sent as one raw frame", "short fast-packet payloads through the public encode path", ""),
+ "C04r2-seq-mask-2bits": ("sequence counter read with mask 0x60", "a partial message followed by one whose counter differs by 4", ""),
+ "C05r2-pdu-split-cache-drops-dp": ("module-level cache of the PDU split keyed by PF/PS (data page lost)", "two identifiers differing only in bits 24-25 parsed in one process", "first run CRASHED the harness (helper message could not be decoded): helper failure is now a violation; the identifier sweep itself reports it"),
+ "C06r2-ebyte-read13": ("EByte client `read(13)` instead of `readexactly(13)`", "a packet split across reads", ""),
+ "C07r2-transport-type-cached": ("fast/single decision cached per PGN on the decoder, ignoring `already_combined`", "one decoder seeing the same fast PGN both pre-assembled and frame by frame", "MISSED by the first C07 (fresh decoder per rendering); all renderings are now also fed to one shared decoder in two orders"),
+ "C08r2-unmatched-pgn-blacklisted": ("a PGN is blacklisted once a payload matched no definition", "an unmatched payload before a matching one on the same decoder (PGNs without fallback)", ""),
+ "C09r2-absent-signed-all-ones": ("absent value always encoded as all ones", "absent value on a signed NUMBER field", ""),
+ "C10r2-id-verdict-cached-per-pgn": ("id filter verdict cached per PGN number", "id filter on a multi-definition PGN, another definition of that PGN first", ""),
+ "C11r2-manufacturer-pass-cached": ("manufacturer verdict cached per source address", "allowed claim, data, then re-claim by an excluded manufacturer", ""),
+ "C12r2-message-reset-hoisted": ("`message = None` hoisted out of the Waveshare packet loop", "a packet that makes the decoder *raise* right after a good packet in the same read", "MISSED by the first C12/C20 (their bad packets only failed the checksum): a well-framed packet that makes the decoder raise was added to both alphabets"),
+ "C13r2-reconnect-only-if-connected": ("receive-loop handler reconnects only when state is CONNECTED", "send() failing while connect() still holds its lock inside a slow CONNECTED callback, and no later send", "MISSED by the first C13: added send() as a special, sessions without a trailing send, and a status callback that is slow for the first notification only"),
+ "C14r2-receive-loop-closed-guard": ("CLOSED guard removed from the receive-loop handler", "link fault while close() is suspended in a slow status callback", ""),
+ "C15r2-dump-twice-number-and-id": ("message listed by number and by id dumped twice", "dump filter naming one message both ways", ""),
+ "C16r2-lru-cache-shared-message": ("module-level lru_cache of decoded message objects", "same payload decoded twice (other source / other configuration)", "MISSED by the first C16 (same values written twice are invisible): a decoder with unit preferences, object-identity and returned-message-stability checks and fresh-decoder baselines for single-frame events were added"),
+ "C17r2-key-positions-cached-per-pgn": ("primary-key positions cached per PGN (module level)", "two definitions of one PGN with different key layouts, in a particular order", ""),
+ "C18r2-units-skip-cached-per-pgn": ("'has a preferred quantity' cached per PGN on the decoder", "a definition without convertible fields decoded before a sibling that has one", "MISSED by the first C18 (definitions handled independently): every ordered pair of definitions sharing a PGN is now decoded on one decoder"),
+ "C19r2-shared-packet-list": ("encoder reuses one packet list per instance", "second send() encoding while the first is suspended in drain()", ""),
+ "C20r2-checksum-byte-left": ("packet cut one byte short (checksum byte stays in the buffer)", "a packet whose checksum is 0xAA followed by noise starting with 0x55", "MISSED by the first C20 (valid packets ending in 0xAA were excluded by an assertion): packet P4 (checksum 0xAA) and noise N55 added"),
 }
 rows = []
 for d in sorted(glob.glob(os.path.join(V, "seeded", "*"))):
